@@ -556,15 +556,15 @@ def oracle_breakpoints(idxs, buf, got):
     return True
 
 
-def breakpoint_families(rng, thorough):
+def breakpoint_families(rng, thorough, small=False):
     fams = []
-    for L in (2, 3, 4):
+    for L in ((2, 3) if small else (2, 3, 4)):
         arrs = mono_arrays(L, 2)
         for a in arrs:
             fams.append([a])
         for a, b in itertools.product(arrs, repeat=2):
             fams.append([a, b])
-    for _ in range(600 if thorough else 150):
+    for _ in range(40 if small else 600 if thorough else 150):
         L = rng.randint(2, 9)
         k = rng.randint(1, 4)
         fam = []
@@ -586,8 +586,8 @@ def parse_mb(v):
     return [list(part), list(cum)]
 
 
-def run_breakpoints(ctx):
-    fams = breakpoint_families(ctx.rng, ctx.tier == "thorough")
+def run_breakpoints(ctx, small=False):
+    fams = breakpoint_families(ctx.rng, ctx.tier == "thorough", small)
     exprs, metas = [], []
     for fam in fams:
         nnz = sum(a[-1] for a in fam)
